@@ -121,7 +121,7 @@ func checkC03(c *Checker) {
 		// final header
 		hdr, _ := o.St.mem[objByName(o, dst.obj())].(StructV)
 		var data SliceV
-		if len(hdr.F) == 3 {
+		if len(hdr.F) >= 3 {
 			data, _ = hdr.F[fi.data].(SliceV)
 		}
 		grows := effectsOf(o, EGrow)
